@@ -432,7 +432,7 @@ func Run(r *fw.Run) {
 	r.Assume = []string{"cell queries assume the eval walker is constant between the constants of the input and of the list answer; the thorough tier removes the assumption on a designated scope by sweeping all 3x65535 ports",
 		"the in-memory mirror of the CLI loader is bound to the real one by the cli-loader scope (real function through an in-package overlay hook) and the cli-binary scope (spawned binary)"}
 	if r.Quick() {
-		r.SetBudget(150 * time.Second)
+		r.SetBudget(300 * time.Second)
 	} else {
 		r.SetBudget(30 * time.Minute)
 	}
